@@ -410,7 +410,7 @@ def asmOnce (st : Static) (defs : Defs) : Nat → RCtx → List AstNode → ECtx
     let inner : RCtx := { ctx with cur := cur }
     match node with
     | .symbol _ name _ _ _ =>
-      match evalAddress defs inner true with
+      match evalAddress defs inner inner.canGuess with
       | .error e => .error e
       | .ok a =>
         let nv : Value := .int ⟨a, none⟩
